@@ -182,6 +182,7 @@ def weight_arrays(n, tier, shape):
             out.append({"zeros": list(z)})
     out.append({"generic": 0})
     out.append({"generic": 1})
+    out.append({"generic": 2})      # weights of both signs (a weight array is any real array)
     out.append({"zeros": [n - 1], "dtype": "bool"})
     out.append({"zeros": [0], "dtype": "int"})
     out.append({"generic": 1, "corder": True})
@@ -198,6 +199,8 @@ def build_W(wd, shape, seed):
         v = [_WGT[(2 * l + seed) % len(_WGT)] for l in range(n)]
         if wd["generic"] == 1:
             v = [0.0 if l % 4 == 1 else x for l, x in enumerate(v)]
+        elif wd["generic"] == 2:
+            v = [-x if l % 3 == 1 else x for l, x in enumerate(v)]
     a = rm.arr(shape, v)
     a = np.ascontiguousarray(a) if wd.get("corder") else np.asfortranarray(a)
     if wd.get("dtype") == "bool":
@@ -261,6 +264,8 @@ def gen_cases(tier, seed):
                                 "holder": holder, "kw": kw, "Ws": "few" if few else "all", "tier": tier, "seed": seed}
                         if few:
                             yield base
+                            if R == 2:
+                                yield dict(base, uz=True)
                         else:
                             nb = max(1, len(weight_arrays(prod(s), tier, s)) * sum(s) * R // 600)
                             for b in range(nb):
@@ -282,6 +287,8 @@ def gen_cases(tier, seed):
                         yield dict(base, orders="all", obatch=[b, 16])
                 else:
                     yield dict(base, orders="few")
+                if R == 2:
+                    yield dict(base, orders="few", uz=True)
     for name, p in loss_configs("quick")[:3]:
         yield {"check": "estimate", "shape": [3], "rank": 2, "loss": name, "param": p, "lists": "all",
                "tier": tier, "seed": seed}
@@ -484,6 +491,11 @@ def _model(case):
     R = case["rank"]
     ddom, mdom = LOSS_DOM[case["loss"]]
     U = factors_for(shape, R, mdom, case.get("seed", 0))
+    if case.get("uz"):
+        # an exact zero among the factor entries (rank >= 2 keeps a positive-domain model positive)
+        U[0][0, 0] = 0.0
+        if mdom != "pos":
+            U[-1][-1, R - 1] = 0.0
     lam = kweights_for(case.get("kw", "unit"), R, mdom)
     if case.get("kw", "unit") == "unit":
         K = ttb.ktensor([u.copy(order="F") for u in U])
@@ -515,7 +527,7 @@ def _run_evaluate(case, ctx):
     if "W" in case:
         wds = [case["W"]]
     elif case.get("Ws") == "few":
-        wds = [None, {"zeros": [0]}, {"zeros": [0, ncell - 1]}, {"generic": 1}]
+        wds = [None, {"zeros": [0]}, {"zeros": [0, ncell - 1]}, {"generic": 1}, {"generic": 2}]
     else:
         wds = weight_arrays(ncell, tier, shape)
         if "Wbatch" in case:
@@ -614,6 +626,10 @@ def _run_evaluate(case, ctx):
                     if got != 0:
                         nz = True
                     h = 1e-3 * (abs(U[n][j, r]) if mdom == "pos" else 1.0)
+                    if h == 0.0:
+                        # a zero factor entry of a positive-domain model: step relative to the room the model values leave
+                        mask = D != 0
+                        h = 1e-3 * (0.1 * float(np.min(Mref[mask] / np.abs(D[mask]))) if np.any(mask) else 1.0)
                     if name == "HUBER":
                         h = 1e-4
                         lo = np.abs(A - (Mref - 2 * h * D)) < p
@@ -847,6 +863,10 @@ def _run_estimate(case, ctx):
     n = prod(shape)
     cl = rm.cells(shape)
     U = factors_for(shape, R, mdom, seed)
+    if case.get("uz"):
+        U[0][0, 0] = 0.0
+        if mdom != "pos":
+            U[-1][-1, R - 1] = 0.0
     Mref = rm.kruskal(np.ones(R), U)
     if "idx" in case:
         lists = [(case["idx"], case["w"], case["crng"], case["cls"])]
